@@ -460,9 +460,9 @@ void shrink(const Plan& p, std::vector<Plan>& out) {
   }
 }
 
-const sim::Scenario kRounds = {"C16", "rounds", "asan", 12000, 200000, generate_rounds, execute_rounds, op_name, shrink, nullptr};
-const sim::Scenario kRoundsFaults = {"C16", "rounds-faults", "asan", 6000, 100000, generate_rounds_faults, execute_rounds, op_name, shrink, nullptr};
-const sim::Scenario kFuncsS = {"C16", "compiler-functions", "asan", 3000, 60000, generate_funcs, execute_funcs, op_name, nullptr, nullptr};
+const sim::Scenario kRounds = {"C16", "rounds", "asan", 60000, 1200000, generate_rounds, execute_rounds, op_name, shrink, nullptr};
+const sim::Scenario kRoundsFaults = {"C16", "rounds-faults", "asan", 30000, 600000, generate_rounds_faults, execute_rounds, op_name, shrink, nullptr};
+const sim::Scenario kFuncsS = {"C16", "compiler-functions", "asan", 15000, 300000, generate_funcs, execute_funcs, op_name, nullptr, nullptr};
 sim::Registrar r1(kRounds), r2(kRoundsFaults), r3(kFuncsS);
 
 const char* const kAssumptions[] = {
